@@ -73,16 +73,17 @@ def run(repo: Repo, rep: Report):
     for rid, txt in [
         ("R-CASE.gradient-parse", "from_element: specification defaults, axis-wise percentage scaling, reference box per gradientUnits, unknown attributes rejected"),
         ("R-POLY.user-space", "as_user_space_units: gradientTransform then unit-square->bbox; coordinates untouched; units switched on that branch only"),
-        ("R-SITE.gradient-ctm", "_transformed_gradient: gradient space first then CTM, bbox of the untransformed shape, fresh id, called unconditionally"),
-        ("R-TABLE.gradient-coords", "_GRADIENT_COORDS lists exactly the point-valued pairs; one rounding constant >= 6 at every rounding site"),
-        ("R-SITE.template", "_apply_gradient_template: own wins, stops only when absent, chain first, href removed, stop ids stripped"),
+        ("R-SITE.gradient-ctm", "_simplify interpreted on schematic documents: every transformed gradient-filled shape references its own clone whose gradientTransform applies the gradient's transform, "
+                                "then unit-square -> bounding box of the untransformed shape, then the shape's CTM; untransformed shapes keep their gradient; templates are resolved through chains (own wins, stops only when absent, no href left)"),
+        ("R-TABLE.gradient-coords", "_apply_gradient_translation interpreted on concrete gradients: translation removed, every point-valued pair mapped as before, lengths untouched, values kept to >= 6 decimals"),
     ]:
         rep.rule(rid, txt)
+    from sa.rules import sem
     _check_parse(repo, rep, folder)
     _check_user_space(repo, rep)
-    _check_ctm(repo, rep)
-    _check_translation(repo, rep, folder)
-    _check_template(repo, rep)
+    sem.check_simplify(repo, rep, {"gradient": "R-SITE.gradient-ctm"})
+    _check_constants(repo, rep, folder)
+    sem.check_gradient_translation(repo, rep, "R-TABLE.gradient-coords")
     # decomposition identities (shared with C11)
     from sa.rules import c11
     rep.rule("R-POLY.decompose", "decompose_translation parts recompose to self on every branch (rule of C11)")
@@ -154,7 +155,7 @@ def _check_parse(repo, rep, folder):
     for units in ("objectBoundingBox", "userSpaceOnUse", None):
         w, h = W[units or "objectBoundingBox"]
         diag = fn_atom("sqrt", w * w + h * h) / fn_atom("sqrt", 2)
-        for present in (set(), {"cx", "cy", "r"}, {"fx"}, {"fy", "fr"}, {"cx", "fx", "fy", "fr", "r", "cy"}):
+        for present in (set(), {"cx", "cy", "r"}, {"fx"}, {"fy", "fr"}, {"cx", "fx", "fy", "fr", "r", "cy"}, {"cx", "cy", "fx"}, {"cx", "cy", "fy"}):
             attrs = {"id": "g"}
             if units:
                 attrs["gradientUnits"] = units
@@ -260,122 +261,13 @@ def _check_user_space(repo, rep):
                                  + ("" if coords_same else " and modified coordinates"), st, fnode)
 
 
-def _check_ctm(repo, rep):
+def _check_constants(repo, rep, folder):
     svg = repo["svg"]
-    fn = svg.func("SVG._transformed_gradient")
-    F = "svg.SVG._transformed_gradient"
-    rep.saw(F)
-    cs = [c for c in calls_named(fn, "compose_ltr", nested=False) if compose_operands(c)]
-    if len(cs) == 1 and [unparse(o) for o in compose_operands(cs[0])] == ["gradient.gradientTransform", "transform"]:
-        rep.ok("R-SITE.gradient-ctm", f"{F}: compose_ltr((gradient.gradientTransform, transform))", "gradient space first, then the shape's CTM", True)
-    else:
-        rep.fail("R-SITE.gradient-ctm", F, "Affine2D.compose_ltr((gradient.gradientTransform, transform))", "the gradient transform is not composed 'gradient first, then CTM'", svg, fn)
-    t = unparse(fn)
-    checks = [(".from_element(fill_el, self.view_box())", "parsed against the document view box"),
-              (".as_user_space_units(shape_bbox, inplace=True)", "converted to user space with the shape's bounding box"),
-              ("gradient.id = self._new_id(gradient.id + '_%d')", "clone gets a fresh id derived from the original"),
-              ("new_fill.extend((copy.deepcopy(stop) for stop in fill_el))", "stops are copied to the clone"),
-              ("self._apply_gradient_translation(new_fill)", "clone is normalised"),
-              ("self._add_to_defs(defs, new_fill)", "clone is added to defs")]
-    for needle, what in checks:
-        if needle in t:
-            rep.ok("R-SITE.gradient-ctm", f"{F}: {what}")
-        else:
-            rep.fail("R-SITE.gradient-ctm", F, needle, f"missing: {what}", svg, fn)
-    i_conv = t.find(".as_user_space_units(")
-    i_comp = t.find("Affine2D.compose_ltr(")
-    if 0 <= i_conv < i_comp:
-        rep.ok("R-SITE.gradient-ctm", f"{F}: unit conversion before the CTM is composed")
-    else:
-        rep.fail("R-SITE.gradient-ctm", F, "as_user_space_units before compose_ltr", "the CTM is composed before the bbox mapping is folded in", svg, fn)
-    # call site in _simplify: unconditional inside the (transform != identity and url fill) branch, bbox of the untransformed shape
-    sp = svg.func("SVG._simplify")
-    guard = [n for n in ast.walk(sp) if isinstance(n, ast.If) and "context.transform != Affine2D.identity()" in unparse(n.test) and "'url' in el.attrib.get('fill', '')" in unparse(n.test)]
-    ok = False
-    if guard:
-        g = guard[0]
-        body = [unparse(s) for s in g.body]
-        straight = not any(isinstance(x, (ast.If, ast.Try, ast.For, ast.While, ast.IfExp)) for s in g.body for x in ast.walk(s))
-        call = [c for c in ast.walk(g) if isinstance(c, ast.Call) and call_name(c) == "self._transformed_gradient"]
-        if straight and len(call) == 1 and [unparse(a) for a in call[0].args] == ["defs", "fill_el", "context.transform", "from_element(el).bounding_box()"] \
-                and "self._apply_gradient_template(fill_el)" in body and any(b.startswith("el.attrib['fill'] = f'url(#") for b in body):
-            # before apply_transform in program order
-            tr = [c for c in ast.walk(sp) if isinstance(c, ast.Call) and call_name(c).endswith(".apply_transform")]
-            ok = all(x.lineno > call[0].lineno for x in tr)
-    if ok:
-        rep.ok("R-SITE.gradient-ctm", "svg.SVG._simplify: transformed url fill -> template inlined, clone built with (CTM, bbox of the untransformed shape), fill rewritten", "straight-line branch: no cache, no condition", True)
-    else:
-        rep.fail("R-SITE.gradient-ctm", "svg.SVG._simplify", "fill_el = self._transformed_gradient(defs, fill_el, context.transform, from_element(el).bounding_box())",
-                 "the rewritten gradient is no longer computed for every transformed shape from that shape's own CTM and untransformed bounding box "
-                 "(e.g. reused from a cache keyed without the bounding box, or taken after the transform)", svg, guard[0] if guard else sp)
-
-
-def _check_translation(repo, rep, folder):
-    svg = repo["svg"]
-    coords = folder.table("svg", "_GRADIENT_COORDS")
-    rep.tables.add("svg._GRADIENT_COORDS")
-    want = {"linearGradient": (("x1", "y1"), ("x2", "y2")), "radialGradient": (("cx", "cy"), ("fx", "fy"))}
-    got = {k: tuple(tuple(p) for p in v) for k, v in coords.items()}
-    if got != want:
-        rep.fail("R-TABLE.gradient-coords", "svg._GRADIENT_COORDS", str(got), f"table is {got}; the point-valued pairs are {want} (radii are lengths and must not be translated)", svg)
-    else:
-        rep.ok("R-TABLE.gradient-coords", "svg._GRADIENT_COORDS", "(x1,y1),(x2,y2) / (cx,cy),(fx,fy); no radius")
     nd = folder.table("svg", "_GRADIENT_TRANSFORM_NDIGITS")
     if not isinstance(nd, int) or nd < 6:
         rep.fail("R-TABLE.gradient-coords", "svg._GRADIENT_TRANSFORM_NDIGITS", str(nd), "gradient parameters must be kept to at least 6 decimals", svg)
     else:
         rep.ok("R-TABLE.gradient-coords", "svg._GRADIENT_TRANSFORM_NDIGITS", f"= {nd}")
-    n = 0
-    for q in ("SVG._apply_gradient_translation", "SVG._transformed_gradient"):
-        fn = svg.func(q)
-        for c in ast.walk(fn):
-            if isinstance(c, ast.Call) and (call_name(c) == "round" or call_name(c).endswith(".round")):
-                n += 1
-                arg = c.args[-1] if c.args else None
-                if arg is None or unparse(arg) != "_GRADIENT_TRANSFORM_NDIGITS":
-                    rep.fail("R-TABLE.gradient-coords", f"svg.{q}", c, "rounding site does not use the single constant _GRADIENT_TRANSFORM_NDIGITS", svg, c)
-    rep.floor("gradient rounding sites", n, 5)
-    fn = svg.func("SVG._apply_gradient_translation")
-    F = "svg.SVG._apply_gradient_translation"
-    rep.saw(F)
-    t = unparse(fn)
-    needs = [("translate, affine_prime = affine.decompose_translation()", "translation split from the 2x2 part"),
-             ("for x_attr, y_attr in _GRADIENT_COORDS[strip_ns(el.tag)]:", "every point-valued pair of this gradient kind is visited"),
-             ("x_prime, y_prime = translate.map_point((x, y))", "points mapped through the translation part"),
-             ("gradient.gradientTransform = affine_prime.round(_GRADIENT_TRANSFORM_NDIGITS)", "remaining 2x2 part becomes the gradientTransform"),
-             ("affine = gradient.gradientTransform", "decomposes the gradient's own transform")]
-    for needle, what in needs:
-        if needle in t:
-            rep.ok("R-TABLE.gradient-coords", f"{F}: {what}")
-        else:
-            rep.fail("R-TABLE.gradient-coords", F, needle, f"missing: {what}", svg, fn)
-
-
-def _check_template(repo, rep):
-    svg = repo["svg"]
-    fn = svg.func("SVG._apply_gradient_template")
-    F = "svg.SVG._apply_gradient_template"
-    rep.saw(F)
-    t = unparse(fn)
-    body = [unparse(s) for s in fn.body]
-    def idx(needle):
-        return next((i for i, b in enumerate(body) if needle in b), -1)
-    i_rec, i_attr, i_stops, i_del = idx("self._apply_gradient_template(template)"), idx("for attr_name in _GRADIENT_FIELDS[strip_ns(gradient.tag)]"), idx("if len(gradient) == 0:"), idx("del gradient.attrib[href_attr]")
-    if -1 not in (i_rec, i_attr, i_stops, i_del) and i_rec < i_attr < i_stops < i_del:
-        rep.ok("R-SITE.template", f"{F}: template chain resolved first, then attributes, then stops, then href removed", "statement order", True)
-    else:
-        rep.fail("R-SITE.template", F, "recurse; copy attributes; copy stops; delete href", "template inlining order changed: a template's own template must be resolved before it is copied from", svg, fn)
-    if "if attr_name in template.attrib and attr_name not in gradient.attrib:" in t and "gradient.attrib[attr_name] = template.attrib[attr_name]" in t:
-        rep.ok("R-SITE.template", f"{F}: an attribute is copied only when the referencing gradient lacks it (own wins)", "", True)
-    else:
-        rep.fail("R-SITE.template", F, "if attr_name in template.attrib and attr_name not in gradient.attrib", "template attributes override the gradient's own", svg, fn)
-    st_if = [n for n in walk_no_nested(fn) if isinstance(n, ast.If) and unparse(n.test) == "len(gradient) == 0"]
-    if st_if and "copy.deepcopy(stop_el)" in unparse(st_if[0]) and "_del_attrs(new_stop_el, 'id')" in unparse(st_if[0]) and "gradient.append(new_stop_el)" in unparse(st_if[0]):
-        rep.ok("R-SITE.template", f"{F}: stops copied (deep, ids stripped) only when the gradient has none")
-    else:
-        rep.fail("R-SITE.template", F, "if len(gradient) == 0: copy stops without ids", "stop inheritance changed", svg, fn)
-    if "if href_attr not in gradient.attrib:\n    return" in t.replace("        ", "    ") or "if href_attr not in gradient.attrib:" in t:
-        rep.ok("R-SITE.template", f"{F}: no href -> nothing to do")
 
 
 _S = "svg"
@@ -385,10 +277,10 @@ VARIANTS = [
     Variant("cy scaled by width", [Edit(_T, "SVGRadialGradient.from_element", 'number_or_percentage(attrib.pop("cy", "50%"), scale.h)', 'number_or_percentage(attrib.pop("cy", "50%"), scale.w)')],
             [("R-CASE.gradient-parse", "SVGRadialGradient")]),
     Variant("CTM composed before the gradient transform", [Edit(_S, "SVG._transformed_gradient", "(gradient.gradientTransform, transform)", "(transform, gradient.gradientTransform)")],
-            [("R-SITE.gradient-ctm", "_transformed_gradient")]),
-    Variant("radius translated", [Edit(_S, None, '"radialGradient": (("cx", "cy"), ("fx", "fy")),', '"radialGradient": (("cx", "cy"), ("fx", "fy"), ("r", "r")),')], [("R-TABLE.gradient-coords", "_GRADIENT_COORDS")]),
+            [("R-SITE.gradient-ctm", "_simplify")]),
+    Variant("radius translated", [Edit(_S, None, '"radialGradient": (("cx", "cy"), ("fx", "fy")),', '"radialGradient": (("cx", "cy"), ("fx", "fy"), ("r", "r")),')], [("R-TABLE.gradient-coords", "_apply_gradient_translation")]),
     Variant("template attributes copied unconditionally", [Edit(_S, "SVG._apply_gradient_template", "if attr_name in template.attrib and attr_name not in gradient.attrib:", "if attr_name in template.attrib:")],
-            [("R-SITE.template", "_apply_gradient_template")]),
+            [("R-SITE.gradient-ctm", "_simplify")]),
     Variant("two digits for gradient parameters", [Edit(_S, None, "_GRADIENT_TRANSFORM_NDIGITS = 6", "_GRADIENT_TRANSFORM_NDIGITS = 2")], [("R-TABLE.gradient-coords", "_GRADIENT_TRANSFORM_NDIGITS")]),
     Variant("bbox mapping applied before the gradient transform", [Edit(_T, "_SVGGradient.as_user_space_units", "(self.gradientTransform, Affine2D.rect_to_rect(_UNIT_RECT, shape_bbox))", "(Affine2D.rect_to_rect(_UNIT_RECT, shape_bbox), self.gradientTransform)")],
             [("R-POLY.user-space", "as_user_space_units")]),
@@ -402,6 +294,6 @@ VARIANTS = [
             [("R-SITE.gradient-ctm", "_simplify")]),
     Variant("template copied before its own template is resolved", [Edit(_S, "SVG._apply_gradient_template", "        # recurse if template references another template\n        if template.attrib.get(href_attr):\n            self._apply_gradient_template(template)\n\n", ""),
                                                                     Edit(_S, "SVG._apply_gradient_template", "        del gradient.attrib[href_attr]", "        if template.attrib.get(href_attr):\n            self._apply_gradient_template(template)\n        del gradient.attrib[href_attr]")],
-            [("R-SITE.template", "_apply_gradient_template")]),
+            [("R-SITE.gradient-ctm", "_simplify")]),
     Variant("silent: comment in translation", [Edit(_S, "SVG._apply_gradient_translation", "        affine = gradient.gradientTransform\n", "        affine = gradient.gradientTransform  # current transform\n")], silent=True),
 ]
